@@ -9,6 +9,7 @@ package vrt
 
 import (
 	"fmt"
+	"os"
 	"reflect"
 	"runtime"
 	"sort"
@@ -70,6 +71,7 @@ type Thread struct {
 }
 
 type chanState struct {
+	keep      interface{} // keeps the real channel alive so that its address is not reused within the execution
 	cap       int // logical capacity
 	n         int // logical items in buffer (buffered channels)
 	closed    bool
@@ -123,6 +125,9 @@ func goid() int64 {
 }
 
 var StrictG = true
+
+// DebugTrace prints every scheduling decision to stderr (VRT_TRACE=1).
+var DebugTrace = os.Getenv("VRT_TRACE") != ""
 
 func checkG() {
 	if w == nil {
@@ -375,6 +380,9 @@ func (wd *World) schedule(self *Thread) {
 			return strings.Join(parts, " | ")
 		})
 		next = en[i]
+	}
+	if DebugTrace {
+		fmt.Fprintf(os.Stderr, "vrt: -> T%d %s %s %s\n", next.ID, opNames[next.op.kind], next.op.what, next.op.pos)
 	}
 	if wd.traceOn {
 		wd.Trace = append(wd.Trace, fmt.Sprintf("T%d:%s:%s", next.ID, opNames[next.op.kind], next.op.pos))
